@@ -163,6 +163,13 @@ func replayMain(args []string) {
 						results <- b
 						continue
 					}
+					if rq.Mode == "num" {
+						// the whole sequence of calls did not come back within the limit
+						b, _ = json.Marshal(M{"id": rq.ID, "ev": "Num", "fam": rq.Fam, "src": []interface{}{}, "out": M{"o": fail}, "steps": []interface{}{M{"fn": "lost", "out": M{"o": fail}}}})
+						b = append(b, '\n')
+						results <- b
+						continue
+					}
 					if rq.Mode == "compile" || rq.Mode == "denote" {
 						ev := M{"id": rq.ID, "ev": map[string]string{"compile": "Lex", "denote": "Denote"}[rq.Mode], "fam": rq.Fam, "bytes": rq.Bytes, "toks": []interface{}{}, "out": M{"o": fail}}
 						b, _ = json.Marshal(ev)
